@@ -139,6 +139,11 @@ class Lib:
         S.append((path(r"^std::char::methods::<impl char>::from_u32$|^std::char::from_u32$"), self.from_u32))
         S.append((path(r"^std::ops::RangeInclusive::<Idx>::contains$"), self.range_contains))
         S.append((path(r"^std::char::methods::<impl char>::len_utf8$"), self.len_utf8))
+        S.append((path(r"^std::char::methods::<impl char>::is_control$"), self.char_class(iset.mk((0, 0x1F), (0x7F, 0x9F)))))
+        S.append((path(r"^std::char::methods::<impl char>::is_ascii_digit$"), self.char_class(iset.mk((0x30, 0x39)))))
+        S.append((path(r"^std::char::methods::<impl char>::is_ascii$"), self.char_class(iset.mk((0, 0x7F)))))
+        S.append((path(r"^std::char::methods::<impl char>::is_ascii_control$"), self.char_class(iset.mk((0, 0x1F), (0x7F, 0x7F)))))
+        S.append((path(r"^std::char::methods::<impl char>::is_ascii_hexdigit$"), self.char_class(iset.mk((0x30, 0x39), (0x41, 0x46), (0x61, 0x66)))))
 
     # -- constructors -------------------------------------------------------------------------
     def vec_new(self, it, st, inst, args, call):
@@ -332,6 +337,29 @@ class Lib:
                 return FALSE
         return Expr("in_range", (x, lo, hi), (1, False))
 
+    def char_class(self, cls):
+        def f(it, st, inst, args, call):
+            c = args[0]
+            if isinstance(c, Ref):
+                c = it.read_path(st, c.base, c.proj)
+            if isinstance(c, Conc):
+                return Conc(int(iset.contains(cls, c.v)))
+            if isinstance(c, Sym):
+                d = st.cons[c.id]
+                yes, no = iset.inter(d, cls), iset.sub(d, cls)
+                out = []
+                if not iset.is_empty(yes):
+                    s2 = st if iset.is_empty(no) else st.copy()
+                    s2.cons[c.id] = yes
+                    out.append((s2, TRUE))
+                if not iset.is_empty(no):
+                    s3 = st if iset.is_empty(yes) else st.copy()
+                    s3.cons[c.id] = no
+                    out.append((s3, FALSE))
+                return out
+            raise Undecided("char class test of %r" % (c,))
+        return f
+
     def len_utf8(self, it, st, inst, args, call):
         c = args[0]
         if isinstance(c, Conc):
@@ -379,3 +407,51 @@ FUNCS["to_digit"] = _to_digit
 FUNCS["len_utf8"] = _len_utf8
 FUNCS["in_range"] = lambda x, lo, hi: int(lo <= x <= hi)
 FUNCS["is_char"] = lambda x: int(0 <= x <= 0xD7FF or 0xE000 <= x <= 0x10FFFF)
+
+
+class FmtLib:
+    """Summaries of core::fmt entry points: every write becomes an event
+    ("w", Str) | ("wc", char value) | ("ws", str value) | ("wnum", value)."""
+
+    def install(self, it):
+        S = it.summaries
+        path = lambda rx: (lambda inst, _rx=re.compile(rx): bool(_rx.search(inst["path"])))
+        name = lambda rx: (lambda inst, _rx=re.compile(rx): bool(_rx.search(inst["name"])))
+        S.append((path(r"^std::fmt::Formatter::<'a>::write_str$"), self.write_str))
+        S.append((name(r"^<char as std::fmt::Display>::fmt$"), self.char_fmt))
+        S.append((name(r"^<str as std::fmt::Display>::fmt$"), self.str_fmt))
+        S.append((path(r"^std::fmt::Arguments::<'a>::from_str$"), self.args_from_str))
+        S.append((path(r"^std::fmt::Formatter::<'a>::write_fmt$"), self.write_fmt))
+        S.append((path(r"^core::str::<impl str>::chars$"), self.str_chars))
+
+    def ok(self, it, call):
+        return Agg(ret_ty(it, call), 0, (UNIT,))
+
+    def write_str(self, it, st, inst, args, call):
+        st.emit("w", args[1])
+        return self.ok(it, call)
+
+    def char_fmt(self, it, st, inst, args, call):
+        c = args[0]
+        if isinstance(c, Ref):
+            c = it.read_path(st, c.base, c.proj)
+        st.emit("wc", c)
+        return self.ok(it, call)
+
+    def str_fmt(self, it, st, inst, args, call):
+        st.emit("ws", args[0])
+        return self.ok(it, call)
+
+    def args_from_str(self, it, st, inst, args, call):
+        return Agg(ret_ty(it, call), 0, (args[0],))
+
+    def write_fmt(self, it, st, inst, args, call):
+        a = args[1]
+        if isinstance(a, Agg) and len(a.fields) == 1 and isinstance(a.fields[0], Str):
+            st.emit("w", a.fields[0])
+            return self.ok(it, call)
+        st.emit("wfmt", a)
+        return self.ok(it, call)
+
+    def str_chars(self, it, st, inst, args, call):
+        return Top(ret_ty(it, call), "chars")
